@@ -1,6 +1,7 @@
 import Platypus.Proofs.ErrPosBuiltin
 import Platypus.Proofs.ErrPosStart
 import Platypus.Proofs.ErrPosCheck
+import Platypus.Proofs.ErrPosV2
 /-!
 C01 (third sentence) and C17 (run-time clause): **where a run-time error points**.
 
@@ -93,6 +94,29 @@ theorem runtime_error_position_is_token (env : Env) (fuel : Nat) (name : Bytes)
     ∃ pre p, e.chain = pre ++ [(name, p)] ∧ (p ∈ storedOfL stmts ∨ p = Pos.invalid) := by
   obtain ⟨pre, p, hc, hp⟩ := (runtime_error_located env fuel name stmts w e s' h).last
   exact ⟨pre, p, hc, posOfL_stored stmts p hp⟩
+
+/-! ### the v2 interpreter -/
+
+/-- v2 `RunExpr`: a failure is located inside the node -/
+theorem expression_error_inside_node_v2 (env : Env) (fuel : Nat) (n : Node) (s s' : St) (e : PlErr)
+    (h : V2.runExpr env fuel n s = .err e s') : Located env s.task.name (In n) e.chain := by
+  have := (ih2_all env fuel).expr n s
+  unfold TrE at this
+  rw [h] at this
+  exact this.2
+
+/-- v2 `(*Script).Run`: the error names the running script at a stored token position of one of
+    its statements (or `-1:-1`, see `runtime_error_position_is_token`) -/
+theorem runtime_error_located_v2 (env : Env) (fuel : Nat) (name : Bytes) (stmts : List Node) (w : World)
+    (e : PlErr) (s' : St) (h : V2.runScript2 env fuel name stmts w = .err e s') :
+    Located env name (InL stmts) e.chain ∧
+    ∃ pre p, e.chain = pre ++ [(name, p)] ∧ (p ∈ storedOfL stmts ∨ p = Pos.invalid) := by
+  have := (ih2_all env fuel).stmts stmts { task := { name := name, scopes := [[]] }, world := w }
+  unfold TrE at this
+  unfold V2.runScript2 at h
+  rw [h] at this
+  obtain ⟨pre, p, hc, hp⟩ := this.2.last
+  exact ⟨this.2, pre, p, hc, posOfL_stored stmts p hp⟩
 
 /-! ### load-time check errors -/
 
